@@ -1,7 +1,9 @@
 """C13 — direct Fourier transform, preloaded variant and adjoint are exact and consistent."""
 from __future__ import annotations
 
+import json
 import math
+import random
 from fractions import Fraction
 
 import numpy as np
@@ -43,6 +45,393 @@ def _close_arr(got, exp, scale=None):
     return True, ""
 
 
+# ======================================================================================================
+# Round-4 hardening: histories on live, reused objects (DESIGN §13 m2) — helpers
+# ======================================================================================================
+TWIN = Fraction(1) + Fraction(1, 1 << 20)      # 1 + 2^-20 ~ 1e-6 relative: inside np.allclose, far outside 1e-9
+
+
+def _decoy_reads(obj, depth=0, skip=()):
+    """read every public property / cached property of `obj` (and, `depth` levels down, of the autoarray
+    helper objects they return): reads that must not change anything observed afterwards."""
+    n = 0
+    if obj is None:
+        return n
+    for name in dir(type(obj)):
+        if name.startswith("_") or name in skip:
+            continue
+        attr = getattr(type(obj), name, None)
+        if attr is None or callable(attr) or not hasattr(attr, "__get__"):
+            continue
+        try:
+            v = getattr(obj, name)
+        except Exception:
+            continue
+        n += 1
+        if depth and type(v).__module__.startswith("autoarray") and not isinstance(v, type(obj)):
+            n += _decoy_reads(v, depth - 1, skip)
+    return n
+
+
+def _set_entries(obj, old, new, key="int"):
+    """edit `obj` IN PLACE through its public __setitem__ until it holds `new` (1-D arrays of equal length):
+    one index at a time, a slice assignment, or a boolean-mask key with a scalar."""
+    idx = [i for i in range(len(new)) if old[i] != new[i]]
+    if not idx:
+        return
+    if key == "slice":
+        a, b = idx[0], idx[-1] + 1
+        obj[a:b] = np.array(new[a:b])
+    elif key == "bool" and len({complex(new[i]) for i in idx}) == 1:
+        km = np.zeros(len(new), dtype=bool)
+        km[idx] = True
+        obj[km] = new[idx[0]]
+    else:
+        for i in idx:
+            obj[i] = new[i]
+
+
+def _cx_vals(pairs, s=1.0):
+    return np.array([complex(_f(a), _f(b)) for a, b in pairs], dtype=complex) * s
+
+
+def _derive(aa, v, op, operand=None, zero=None):
+    """an object derived from the live structure `v` by the library's own arithmetic / copying.  `operand`: a
+    plain ndarray of the same length; `zero`: a library-made structure of the same type holding exact zeros
+    (e.g. the model visibilities of a zero image) for the `x - model` pattern."""
+    import copy as _copy
+
+    cls = type(v)
+    is_vis = hasattr(v, "in_array")
+
+    def wrap(a):
+        return cls(visibilities=a) if is_vis else aa.Array2D(values=a, mask=v.mask)
+
+    if op == "mul2":
+        return 2.0 * v
+    if op == "mulhalf":
+        return v * 0.5
+    if op == "neg":
+        return -v
+    if op == "div2":
+        return v / 2.0
+    if op == "muli":
+        return v * 1j
+    if op == "add":
+        return v + wrap(operand)
+    if op == "sub":
+        return v - wrap(operand)
+    if op == "rsub":
+        return wrap(operand) - v
+    if op == "add_nd":
+        return v + operand
+    if op == "sub_zero":
+        return v - zero
+    if op == "add_zero":
+        return v + zero
+    if op == "copy":
+        return _copy.copy(v)
+    if op == "dcopy":
+        return _copy.deepcopy(v)
+    if op == "mcopy":
+        return v.copy()
+    if op == "slice":
+        return v[:]
+    if op == "plus0":
+        return v + 0.0
+    if op == "astype":
+        return v.astype(np.asarray(v).dtype)
+    if op == "slim":
+        return v.slim
+    if op == "native_slim":
+        return v.native.slim
+    raise ValueError(f"unknown derivation {op}")
+
+
+class _Env:
+    """live objects shared by the steps of one history.  Every component is REUSED as long as the step's world
+    holds the same content for it, edited IN PLACE (library __setitem__; numpy for caller-owned matrices) or
+    replaced by a library-derived object when the step says so, and rebuilt only when what it was built from
+    changed — so the expectation for every step is "a freshly built object in this state"."""
+
+    def __init__(self, chk, aa):
+        self.chk, self.aa = chk, aa
+        self.w = None
+        self.mask = None
+
+    def _mask_step(self, world, how):
+        chk, aa, prev = self.chk, self.aa, self.w
+        geom = lambda w: (w["mask"]["h"], w["mask"]["w"], w["pixel_scales"], w["origin"])
+        if prev is None or how.get("mask") == "new" or geom(prev) != geom(world):
+            self.mask = chk._mask(aa, world)
+            return True
+        if prev["mask"]["bits"] != world["mask"]["bits"]:
+            wd = world["mask"]["w"]
+            for i, (a, b) in enumerate(zip(prev["mask"]["bits"], world["mask"]["bits"])):
+                if a != b:
+                    self.mask[i // wd, i % wd] = (b == "1")      # Mask2D.__setitem__, in place
+            return True
+        return False
+
+    def _structure_step(self, live, prev_vals, vals, mode, how, role, build, s=1.0, zero=None):
+        """-> (object, replaced?)"""
+        new = np.array(vals) * s
+        if live is not None and prev_vals is not None and len(prev_vals) == len(vals) + 1 \
+                and mode in ("arith:tail", "arith:head"):
+            return (live[1:] if mode == "arith:tail" else live[:-1]), True     # derived by slicing
+        if live is None or prev_vals is None or mode == "new" or len(prev_vals) != len(vals):
+            return build(), True
+        if mode.startswith("arith:"):
+            opnd = how.get(role + "_operand")
+            if opnd is not None:
+                opnd = (np.array([_f(v) for v in opnd]) if role == "image" else _cx_vals(opnd)) * s
+            return _derive(self.aa, live, mode[6:], opnd, zero() if zero else None), True
+        old = np.array(prev_vals) * s
+        _set_entries(live, old, new, how.get(role + "_key", "int"))
+        return live, False
+
+
+class _TEnv(_Env):
+    def __init__(self, chk, aa):
+        super().__init__(chk, aa)
+        self.image = self.vis = self.M = None
+        self.t = {}
+
+    def _build_transformers(self, world, how):
+        chk, aa = self.chk, self.aa
+        feed = world.get("feed") or {}
+        self.t = {}
+        shared = chk._uv_in(world) if how.get("share_uv") else None
+        ins = []
+        for pl in how.get("preload_order") or [True, False]:
+            uv_in = shared if shared is not None else chk._uv_in(world)
+            if pl and feed.get("preload_kw") == "default":
+                self.t[pl] = aa.TransformerDFT(uv_wavelengths=uv_in, real_space_mask=self.mask)
+            else:
+                self.t[pl] = aa.TransformerDFT(uv_wavelengths=uv_in, real_space_mask=self.mask,
+                                               preload_transform=pl)
+            ins.append(uv_in)
+        for uv_in in (ins[:1] if shared is not None else ins):
+            chk._scribble(world, uv_in)
+
+    def _fault(self, kind, world):
+        """an operation that raises in the middle; the same objects are used afterwards"""
+        aa = self.aa
+        mj = world["mask"]
+        n = mj["bits"].count("0")
+        for t in list(self.t.values()):
+            try:
+                if kind == "short_vis":
+                    k = len(world["uv"])
+                    t.image_from(visibilities=aa.Visibilities(visibilities=np.ones(max(k - 1, 0), dtype=complex)))
+                elif kind == "long_image":
+                    big = aa.Mask2D(mask=np.zeros((mj["h"] + 1, mj["w"] + 1), dtype=bool), pixel_scales=(1.0, 1.0))
+                    t.visibilities_from(image=aa.Array2D(values=np.ones((mj["h"] + 1) * (mj["w"] + 1)), mask=big))
+                elif kind == "tall_M":
+                    t.transform_mapping_matrix(mapping_matrix=np.ones((n + 2, world["n_cols"])))
+            except Exception:
+                pass
+        if kind == "bad_ctor":
+            for pl in (True, False):
+                try:
+                    aa.TransformerDFT(uv_wavelengths=np.ones(3), real_space_mask=self.mask, preload_transform=pl)
+                except Exception:
+                    pass
+
+    def step(self, world, how, pw=0):
+        chk, aa, prev = self.chk, self.aa, self.w
+        s = 2.0 ** -pw
+        feed = world.get("feed") or {}
+        mask_changed = self._mask_step(world, how)
+        if mask_changed or prev["uv"] != world["uv"] or how.get("t") == "new" or not self.t:
+            self._build_transformers(world, how)
+        elif how.get("t") in ("copy", "deepcopy"):      # transformers derived from the live ones
+            import copy as _copy
+            self.t = {pl: (_copy.copy(t) if how["t"] == "copy" else _copy.deepcopy(t)) for pl, t in self.t.items()}
+
+        def new_image():
+            vals = chk._image_in(world)
+            if pw:
+                vals = np.asarray(vals, dtype=float) * s
+            return aa.Array2D(values=vals, mask=self.mask)
+
+        def zero_image():   # the adjoint image of exactly-zero visibilities, made by the library
+            k = len(world["uv"])
+            return self.t[True].image_from(visibilities=aa.Visibilities(visibilities=np.zeros(k, dtype=complex)))
+
+        def new_vis():
+            vb = how.get("vis_build")
+            if vb in ("zeros_set", "ones_set", "full_set") and world["vis"]:
+                k = len(world["vis"])
+                v = {"zeros_set": lambda: aa.Visibilities.zeros(shape_slim=(k,)),
+                     "ones_set": lambda: aa.Visibilities.ones(shape_slim=(k,)),
+                     "full_set": lambda: aa.Visibilities.full(fill_value=2.5, shape_slim=(k,))}[vb]()
+                tgt = _cx_vals(world["vis"], s)
+                if vb == "full_set":
+                    v[:] = tgt
+                else:
+                    for i in range(k):
+                        v[i] = tgt[i]
+                return v
+            v = chk._vis_in(aa, world["vis"], feed.get("vis", "complex"))
+            return type(v)(visibilities=np.asarray(v) * s) if pw else v
+
+        def zero_vis():     # the model visibilities of an exactly-zero image, made by the library
+            n = world["mask"]["bits"].count("0")
+            return self.t[False].visibilities_from(image=aa.Array2D(values=np.zeros(n), mask=self.mask))
+
+        pim = None if (prev is None or mask_changed) else [_f(v) for v in prev["image"]]
+        self.image, _ = self._structure_step(self.image, pim, [_f(v) for v in world["image"]],
+                                             how.get("image", "setitem"), how, "image", new_image, s, zero_image)
+        pvi = None if prev is None else list(_cx_vals(prev["vis"]))
+        self.vis, _ = self._structure_step(self.vis, pvi, list(_cx_vals(world["vis"])),
+                                           how.get("vis", "setitem"), how, "vis", new_vis, s, zero_vis)
+        tgt = chk._matrix_in(world["M"], world["n_cols"], "float") * s
+        if self.M is None or how.get("M") == "new" or self.M.shape != tgt.shape:
+            self.M = chk._matrix_in(world["M"], world["n_cols"], feed.get("M", "float")) * (s if pw else 1)
+        else:
+            for i, j in np.argwhere(self.M != tgt):
+                self.M[i, j] = tgt[i, j]              # the caller edits its own matrix in place
+        self.w = world
+        if how.get("fault"):
+            self._fault(how["fault"], world)
+        if how.get("decoy"):
+            for o in (self.vis, self.image, *self.t.values()):
+                _decoy_reads(o)
+            _decoy_reads(self.mask, depth=1)
+        obs = {}
+        for pl in how.get("preload_order") or [True, False]:
+            obs["preload_" + str(pl).lower()] = chk._read_transformer(
+                self.t[pl], self.image, self.vis, self.M, world, how.get("order"), pw)
+        return obs
+
+
+class _NEnv(_Env):
+    def __init__(self, chk, aa):
+        super().__init__(chk, aa)
+        self.t = self.uv = self.data = self.noise = self.settings = self.ds = None
+        self.skey = None
+        self.objs, self.Ms = [], []
+
+    def _new_objs(self, world):
+        chk, aa = self.chk, self.aa
+        feed = world.get("feed") or {}
+        self.objs, self.Ms = [], []
+        for o in world["objs"]:
+            mk = feed.get("M", "float")
+            if mk == "int64" and not all(Fraction(v).denominator == 1 for r in o["M"] for v in r):
+                mk = "float"
+            M = chk._matrix_in(o["M"], o["n_cols"], mk)
+            reg = aa.m.MockRegularization(regularization_matrix=np.eye(o["n_cols"])) if o["has_reg"] else None
+            if o["cls"] == "mapper":
+                self.objs.append(aa.m.MockMapper(mapping_matrix=M, parameters=o["n_cols"], regularization=reg,
+                                                 edge_pixel_list=[]))
+            else:
+                self.objs.append(aa.m.MockLinearObj(mapping_matrix=M, parameters=o["n_cols"], regularization=reg))
+            self.Ms.append(M)
+
+    def _new_settings(self, world):
+        aa = self.aa
+        if world["default_settings"]:
+            return aa.SettingsInversion(use_w_tilde=False)
+        return aa.SettingsInversion(
+            use_w_tilde=False, no_regularization_add_to_curvature_diag_value=_f(world["diag_value"]))
+
+    def _inversion(self, ds, objs, world):
+        aa = self.aa
+        if world["via_factory"]:
+            return aa.Inversion(dataset=ds, linear_obj_list=objs, settings=self.settings)
+        return aa.InversionInterferometerMapping(dataset=ds, linear_obj_list=objs, settings=self.settings)
+
+    def step(self, world, how, pw=0):
+        from autoarray.inversion.inversion.dataset_interface import DatasetInterface
+
+        chk, aa, prev = self.chk, self.aa, self.w
+        feed = world.get("feed") or {}
+        mask_changed = self._mask_step(world, how)
+        new_t = (mask_changed or self.t is None or prev["uv"] != world["uv"] or how.get("t") == "new"
+                 or prev["preload"] != world["preload"])
+
+        def zero_vis():
+            n = world["mask"]["bits"].count("0")
+            t = self.t if self.t is not None and not new_t else aa.TransformerDFT(
+                uv_wavelengths=chk._uv_in(world), real_space_mask=self.mask, preload_transform=False)
+            return t.visibilities_from(image=aa.Array2D(values=np.zeros(n), mask=self.mask))
+
+        pd = None if prev is None else list(_cx_vals(prev["data"]))
+        self.data, rd = self._structure_step(
+            self.data, pd, list(_cx_vals(world["data"])), how.get("data", "setitem"), how, "data",
+            lambda: chk._vis_in(aa, world["data"], feed.get("vis", "complex")), 1.0, zero_vis)
+        pn = None if prev is None else list(_cx_vals(prev["noise"]))
+        self.noise, rn = self._structure_step(
+            self.noise, pn, list(_cx_vals(world["noise"])), how.get("noise", "setitem"), how, "noise",
+            lambda: chk._vis_in(aa, world["noise"], feed.get("vis", "complex"), aa.VisibilitiesNoiseMap))
+        struct = lambda w: [(o["n_cols"], o["has_reg"], o["cls"], len(o["M"])) for o in w["objs"]]
+        if prev is None or how.get("M") == "new" or struct(prev) != struct(world):
+            self._new_objs(world)
+        else:
+            for M, o in zip(self.Ms, world["objs"]):
+                tgt = chk._matrix_in(o["M"], o["n_cols"], "float")
+                for i, j in np.argwhere(M != tgt):
+                    M[i, j] = tgt[i, j]               # the mapping matrix held by the linear object, edited in place
+        skey = (bool(world["default_settings"]), None if world["default_settings"] else world["diag_value"])
+        if self.settings is None or how.get("settings") == "new":
+            self.settings = self._new_settings(world)
+        elif skey != self.skey:       # (the value has no public setter: a settings object is never edited)
+            self.settings = self._new_settings(world)
+        self.skey = skey
+        if (self.ds is None or new_t or rd or rn or how.get("dataset") == "new"
+                or prev["via_factory"] != world["via_factory"]):
+            if new_t:
+                self.uv = chk._uv_in(world)
+            if world["via_factory"]:
+                self.ds = aa.Interferometer(data=self.data, noise_map=self.noise, uv_wavelengths=self.uv,
+                                            real_space_mask=self.mask, transformer_class=aa.TransformerDFT)
+                if new_t:
+                    if self.ds.transformer.preload_transform != world["preload"]:
+                        self.ds.transformer = aa.TransformerDFT(uv_wavelengths=self.uv, real_space_mask=self.mask,
+                                                                preload_transform=world["preload"])
+                    self.t = self.ds.transformer
+                else:
+                    self.ds.transformer = self.t       # one transformer shared by two datasets
+            else:
+                if new_t:
+                    self.t = aa.TransformerDFT(uv_wavelengths=self.uv, real_space_mask=self.mask,
+                                               preload_transform=world["preload"])
+                self.ds = DatasetInterface(data=self.data, noise_map=self.noise, transformer=self.t)
+            if new_t:
+                chk._scribble(world, self.uv)
+        self.w = world
+        n = world["mask"]["bits"].count("0")
+        if how.get("fault") == "tall_M":
+            try:
+                bad = [aa.m.MockMapper(mapping_matrix=np.ones((n + 1, 1)), parameters=1, regularization=None,
+                                       edge_pixel_list=[])]
+                inv_bad = self._inversion(self.ds, bad + list(self.objs), world)
+                inv_bad.data_vector
+                inv_bad.curvature_matrix
+            except Exception:
+                pass
+        elif how.get("fault") == "short_data":
+            try:
+                k = len(world["uv"])
+                short = DatasetInterface(data=aa.Visibilities(visibilities=np.ones(max(k - 1, 0), dtype=complex)),
+                                         noise_map=self.noise, transformer=self.t)
+                inv_bad = aa.InversionInterferometerMapping(dataset=short, linear_obj_list=list(self.objs),
+                                                            settings=self.settings)
+                inv_bad.data_vector
+            except Exception:
+                pass
+        inv = self._inversion(self.ds, list(self.objs), world)
+        if how.get("decoy"):
+            for o in (self.data, self.noise, self.t):
+                _decoy_reads(o)
+            if how.get("decoy") == "deep":
+                _decoy_reads(self.ds, skip=("w_tilde",))
+                _decoy_reads(inv, skip=chk.READS_N)
+        return chk._read_normal(inv, how.get("order"))
+
+
 class C13(PropertyCheck):
     pid = "C13"
     title = "direct Fourier transform"
@@ -60,6 +449,8 @@ class C13(PropertyCheck):
         "np.dot / np.hstack / complex arithmetic of numpy are modelled (finite sums, pair arithmetic), not verified",
         "the pylops base class is replaced by a three-line stand-in (common.load_autoarray)",
     ]
+    # loop ties (DESIGN §12): regenerated from the source on every run, tie theorems proved for all sizes
+    loop_tie_modules = ["LoopsDFT"]
     modelled_functions = [
         "autoarray/operators/transformer_util.py:preload_real_transforms",
         "autoarray/operators/transformer_util.py:preload_imag_transforms",
@@ -245,6 +636,12 @@ class C13(PropertyCheck):
             h, w = rng.randint(1, 6), rng.randint(1, 6)
             m, kind = gen.random_mask(rng, h, w)
             yield self._normal_case(rng, m, "normal")
+        # round-4: short typed histories on live, reused objects (every step is compared with the model / oracle
+        # value of a freshly built object in that state)
+        for i in range(600 if tier == "quick" else 4000):
+            yield self._history_transformer(rng)
+        for i in range(350 if tier == "quick" else 2500):
+            yield self._history_normal(rng)
 
     # ------------------------------------------------------------------ implementation
     def _mask(self, aa, case):
@@ -294,10 +691,13 @@ class C13(PropertyCheck):
             return cls(visibilities=np.array([[_f(a), _f(b)] for a, b in pairs], dtype=float))
         return cls(visibilities=np.array([complex(_f(a), _f(b)) for a, b in pairs], dtype=complex))
 
-    def run_impl(self, case):
+    def _run_plain(self, case, raw=False):
+        """`raw`: leave the outputs as numpy arrays (large cases: judged in memory by the oracle, summarised by
+        numpy when printed) instead of exact "p/q" strings"""
         aa = load_autoarray()
         feed = case.get("feed") or {}
         kind = case["kind"]
+        ql, cl, cm = (qlist, _cx_list, _cx_mat) if not raw else (np.asarray, np.asarray, np.asarray)
         if kind == "transformer":
             mask = self._mask(aa, case)
             image = aa.Array2D(values=self._image_in(case), mask=mask)
@@ -312,15 +712,7 @@ class C13(PropertyCheck):
                     t = aa.TransformerDFT(uv_wavelengths=uv_in, real_space_mask=mask,
                                           preload_transform=preload)
                 self._scribble(case, uv_in)
-                img = t.image_from(visibilities=vis)
-                obs["preload_" + str(preload).lower()] = {
-                    "grid": [qlist(p) for p in np.array(t.grid).reshape(-1, 2)],
-                    "visibilities": _cx_list(t.visibilities_from(image=image)),
-                    "image": qlist(np.array(img.slim).ravel()),
-                    "image_native": qlist(np.array(img.native).ravel()),
-                    "transformed": _cx_mat(np.asarray(t.transform_mapping_matrix(mapping_matrix=M)).reshape(
-                        len(case["uv"]), case["n_cols"])),
-                }
+                obs["preload_" + str(preload).lower()] = self._read_transformer(t, image, vis, M, case, raw=raw)
             return obs
         uv = self._uv_in(case)
         if kind == "util":
@@ -335,19 +727,19 @@ class C13(PropertyCheck):
             im = tu.preload_imag_transforms(grid_radians=grid, uv_wavelengths=uv)
             return {
                 "preload_true": {
-                    "visibilities": _cx_list(tu.visibilities_via_preload_jit_from(
+                    "visibilities": cl(tu.visibilities_via_preload_jit_from(
                         image_1d=image, preloaded_reals=re, preloaded_imags=im)),
-                    "transformed": _cx_mat(tu.transformed_mapping_matrix_via_preload_jit_from(
+                    "transformed": cm(tu.transformed_mapping_matrix_via_preload_jit_from(
                         mapping_matrix=M, preloaded_reals=re, preloaded_imags=im)),
-                    "image": qlist(tu.image_via_jit_from(n_pixels=grid.shape[0], grid_radians=grid,
+                    "image": ql(tu.image_via_jit_from(n_pixels=grid.shape[0], grid_radians=grid,
                                                           uv_wavelengths=uv, visibilities=vis2)),
                 },
                 "preload_false": {
-                    "visibilities": _cx_list(tu.visibilities_jit(
+                    "visibilities": cl(tu.visibilities_jit(
                         image_1d=image, grid_radians=grid, uv_wavelengths=uv)),
-                    "transformed": _cx_mat(tu.transformed_mapping_matrix_jit(
+                    "transformed": cm(tu.transformed_mapping_matrix_jit(
                         mapping_matrix=M, grid_radians=grid, uv_wavelengths=uv)),
-                    "image": qlist(tu.image_via_jit_from(n_pixels=grid.shape[0], grid_radians=grid,
+                    "image": ql(tu.image_via_jit_from(n_pixels=grid.shape[0], grid_radians=grid,
                                                           uv_wavelengths=uv, visibilities=vis2)),
                 },
             }
@@ -387,20 +779,52 @@ class C13(PropertyCheck):
             self._scribble(case, uv)
             ds = DatasetInterface(data=data, noise_map=noise, transformer=t)
             inv = aa.InversionInterferometerMapping(dataset=ds, linear_obj_list=objs, settings=settings)
+        return self._read_normal(inv, raw=raw)
+
+    READS_T = ("image", "visibilities", "transformed")
+    READS_N = ("operated_mapping_matrix", "data_vector", "curvature_matrix", "no_regularization_index_list")
+
+    def _read_transformer(self, t, image, vis, M, case, order=None, pw=0, raw=False):
+        """the observed reads of one transformer, in the given order; `pw`: the linear inputs were fed scaled by
+        2**-pw (exact), the outputs are scaled back (exact) so that they compare with the unscaled world."""
+        s = 2.0 ** pw
+        ql, cl, cm = (qlist, _cx_list, _cx_mat) if not raw else (np.asarray, np.asarray, np.asarray)
+        out = {}
+        for name in (order or self.READS_T):
+            if name == "image":
+                img = t.image_from(visibilities=vis)
+                out["image"] = ql(np.array(img.slim).ravel() * s)
+                out["image_native"] = ql(np.array(img.native).ravel() * s)
+            elif name == "visibilities":
+                out["visibilities"] = cl(np.asarray(t.visibilities_from(image=image)) * s)
+            elif name == "transformed":
+                out["transformed"] = cm(np.asarray(t.transform_mapping_matrix(mapping_matrix=M)).reshape(
+                    len(case["uv"]), case["n_cols"]) * s)
+        g = np.array(t.grid).reshape(-1, 2)
+        out["grid"] = g if raw else [qlist(p) for p in g]
+        return out
+
+    def _read_normal(self, inv, order=None, raw=False):
         if type(inv).__name__ != "InversionInterferometerMapping":
             return {"err": "wrong_inversion_class", "msg": type(inv).__name__}
-        return {
-            "operated_mapping_matrix": _cx_mat(inv.operated_mapping_matrix),
-            "data_vector": qlist(np.array(inv.data_vector)),
-            "curvature_matrix": qmat(np.array(inv.curvature_matrix)),
-            "no_regularization_index_list": [int(i) for i in inv.no_regularization_index_list],
-        }
+        ql, cm, qm = (qlist, _cx_mat, qmat) if not raw else (np.asarray, np.asarray, np.asarray)
+        out = {}
+        for name in (order or self.READS_N):
+            if name == "operated_mapping_matrix":
+                out[name] = cm(inv.operated_mapping_matrix)
+            elif name == "data_vector":
+                out[name] = ql(np.array(inv.data_vector))
+            elif name == "curvature_matrix":
+                out[name] = qm(np.array(inv.curvature_matrix))
+            elif name == "no_regularization_index_list":
+                out[name] = [int(i) for i in inv.no_regularization_index_list]
+        return out
 
     # ------------------------------------------------------------------ model
     def _diag(self, case):
         return "1/1000" if case["default_settings"] else case["diag_value"]
 
-    def model_requests(self, case, impl_obs):
+    def _requests_plain(self, case, impl_obs):
         kind = case["kind"]
         if kind == "normal_eq":
             # the package default 1.0e-3 is not a dyadic rational: hand the driver the exact double
@@ -418,7 +842,7 @@ class C13(PropertyCheck):
             base.update(grid=case["grid"])
         return [{**base, "preload": True}, {**base, "preload": False}]
 
-    def model_obs(self, case, responses):
+    def _model_obs_plain(self, case, responses):
         for r in responses:
             if "ok" not in r:
                 return {"err": r.get("err")}
@@ -456,17 +880,33 @@ class C13(PropertyCheck):
         ph = -2.0 * math.pi * (np.outer(uv[:, 0], g[:, 1]) + np.outer(uv[:, 1], g[:, 0]))
         return np.cos(ph) + 1j * np.sin(ph), g
 
-    def oracle(self, case, obs):
+    def _oracle_plain(self, case, obs, large=False):
         if "err" in obs:
             return False, f"implementation raised {obs['err']}: {obs.get('msg', '')}"
         A, g = self._operator(case)
         kind = case["kind"]
 
         def cx(lst):
+            if isinstance(lst, np.ndarray):
+                return lst.astype(complex).ravel()
             return np.array([complex(_f(a), _f(b)) for a, b in lst])
 
         def cxm(mat, k, c):
+            if isinstance(mat, np.ndarray):
+                return mat.astype(complex).reshape(k, c)
             return np.array([[complex(_f(a), _f(b)) for a, b in row] for row in mat]).reshape(k, c)
+
+        def fl(lst):
+            if isinstance(lst, np.ndarray):
+                return lst.astype(float).ravel()
+            return np.array([_f(v) for v in lst])
+
+        def pairs(x):        # [[re, im] ...] (or a complex array) -> float array [..., 2]
+            if isinstance(x, np.ndarray):
+                x = x.astype(complex)
+                return np.stack((x.real, x.imag), axis=-1)
+            x = np.array(x, dtype=object)
+            return np.vectorize(_f)(x) if x.size else np.zeros(0)
 
         K, N = A.shape
         if kind == "normal_eq":
@@ -474,7 +914,11 @@ class C13(PropertyCheck):
             B = np.hstack(Ms)
             T = A @ B
             C = B.shape[1]
-            ok, d = _close_arr(cxm(obs["operated_mapping_matrix"], K, C), T)
+            sT = sD = sF = None
+            if large:   # rounding grows with the number of accumulated terms: scale by 1e-3 * sum |terms| as well
+                aT = np.abs(A) @ np.abs(B)
+                sT = max(1.0, float(np.max(np.abs(T))) if T.size else 1.0, 1e-3 * float(np.max(aT)) if aT.size else 0)
+            ok, d = _close_arr(cxm(obs["operated_mapping_matrix"], K, C), T, scale=sT)
             if not ok:
                 return False, "operated (transformed) mapping matrix is not the Fourier operator applied to the columns: " + d
             V = cx(case["data"])
@@ -492,10 +936,17 @@ class C13(PropertyCheck):
                 off += o["n_cols"]
             for i in noreg:
                 F[i, i] += diag
-            ok, d = _close_arr(np.array([_f(v) for v in obs["data_vector"]]), D)
+            if large and T.size:
+                aD = (np.abs(T.real) * (np.abs(V.real) / S.real ** 2)[:, None]).sum(axis=0) + \
+                     (np.abs(T.imag) * (np.abs(V.imag) / S.imag ** 2)[:, None]).sum(axis=0)
+                sD = max(1.0, float(np.max(np.abs(D))), 1e-3 * float(np.max(aD)))
+                sF = max(1.0, float(np.max(np.abs(F))))      # the diagonal is its own sum of absolute terms
+            ok, d = _close_arr(fl(obs["data_vector"]), D, scale=sD)
             if not ok:
                 return False, "data_vector is not the noise-weighted real+imaginary product: " + d
-            ok, d = _close_arr(np.array([[_f(v) for v in r] for r in obs["curvature_matrix"]]).reshape(C, C), F)
+            Fo = obs["curvature_matrix"]
+            Fo = Fo.astype(float) if isinstance(Fo, np.ndarray) else np.array([[_f(v) for v in r] for r in Fo])
+            ok, d = _close_arr(Fo.reshape(C, C), F, scale=sF)
             if not ok:
                 return False, "curvature_matrix is not the noise-weighted real+imaginary Gram matrix: " + d
             return True, ""
@@ -505,45 +956,51 @@ class C13(PropertyCheck):
         exp_vis = A @ I
         exp_T = A @ M
         exp_img = np.real(A.conj().T @ V)
+        s_vis = s_T = s_img = None
+        if large:       # rounding grows with the number of accumulated terms: scale by 1e-3 * sum |terms| as well
+            s_vis = max(1.0, float(np.max(np.abs(exp_vis))) if K else 1.0, 1e-3 * float(np.sum(np.abs(I))))
+            s_T = max(1.0, float(np.max(np.abs(exp_T))) if exp_T.size else 1.0,
+                      1e-3 * float(np.max(np.sum(np.abs(M), axis=0))) if M.size else 0.0)
+            s_img = max(1.0, float(np.max(np.abs(exp_img))) if N else 1.0, 1e-3 * float(np.sum(np.abs(V))))
         for key in ("preload_true", "preload_false"):
             o = obs[key]
             if kind == "transformer":
-                ok, d = _close_arr(np.array([[_f(a), _f(b)] for a, b in o["grid"]]).reshape(-1, 2), g,
+                go = o["grid"]
+                go = go.astype(float) if isinstance(go, np.ndarray) else np.array([[_f(a), _f(b)] for a, b in go])
+                ok, d = _close_arr(go.reshape(-1, 2), g,
                                    scale=max(1e-12, float(np.max(np.abs(g))) if g.size else 1e-12))
                 if not ok:
                     return False, f"{key}: transformer grid is not the unmasked pixel centres in radians: " + d
-            ok, d = _close_arr(cx(o["visibilities"]), exp_vis)
+            ok, d = _close_arr(cx(o["visibilities"]), exp_vis, scale=s_vis)
             if not ok:
                 return False, f"{key}: visibilities != sum_p I_p exp(-2 pi i (x_p u + y_p v)): " + d
-            ok, d = _close_arr(cxm(o["transformed"], K, case["n_cols"]), exp_T)
+            ok, d = _close_arr(cxm(o["transformed"], K, case["n_cols"]), exp_T, scale=s_T)
             if not ok:
                 return False, f"{key}: transformed mapping matrix != operator applied to each column: " + d
-            ok, d = _close_arr(np.array([_f(v) for v in o["image"]]), exp_img)
+            ok, d = _close_arr(fl(o["image"]), exp_img, scale=s_img)
             if not ok:
                 return False, f"{key}: image_from != real part of the conjugate-transpose operator: " + d
             if kind == "transformer":
                 mj = case["mask"]
                 nat = np.zeros(mj["h"] * mj["w"])
                 nat[[i for i, b in enumerate(mj["bits"]) if b == "0"]] = exp_img
-                ok, d = _close_arr(np.array([_f(v) for v in o["image_native"]]), nat)
+                ok, d = _close_arr(fl(o["image_native"]), nat, scale=s_img)
                 if not ok:
                     return False, f"{key}: native image is not the adjoint image at the unmasked pixels / zero elsewhere: " + d
         a, b = obs["preload_true"], obs["preload_false"]
         for k2 in ("visibilities", "transformed"):
-            x = np.array(a[k2], dtype=object)
-            ok, d = _close_arr(np.vectorize(_f)(x) if x.size else np.zeros(0),
-                               np.vectorize(_f)(np.array(b[k2], dtype=object)) if x.size else np.zeros(0))
+            ok, d = _close_arr(pairs(a[k2]), pairs(b[k2]), scale={"visibilities": s_vis, "transformed": s_T}[k2])
             if not ok:
                 return False, f"{k2}: preloaded and non-preloaded paths differ: " + d
         return True, ""
 
     # ------------------------------------------------------------------ misc
-    def nontrivial(self, case, obs):
+    def _nontrivial_plain(self, case, obs):
         npts = len(case["grid"]) if case["kind"] == "util" else case["mask"]["bits"].count("0")
         nz = any(Fraction(a) != 0 or Fraction(b) != 0 for a, b in case["uv"])
         return npts >= 2 and nz
 
-    def shrink(self, case):
+    def _shrink_plain(self, case):
         if case["kind"] != "transformer":
             return
         # drop a baseline
@@ -569,7 +1026,7 @@ class C13(PropertyCheck):
         if case["origin"] != ["0", "0"]:
             yield {**case, "origin": ["0", "0"]}
 
-    def theorems_for(self, case):
+    def _theorems_plain(self, case):
         if case["kind"] == "normal_eq":
             return ["C13.a_grid_is_pixel_centres_in_radians", "C13.b_transformed_mapping_matrix",
                     "C13.d_data_vector", "C13.d_curvature_matrix", "C13.d_curvature_symmetric",
@@ -580,6 +1037,632 @@ class C13(PropertyCheck):
         if case["kind"] == "transformer":
             t.append("C13.a_grid_is_pixel_centres_in_radians")
         return t
+
+    # ==================================================================================================
+    # Round-4 hardening (DESIGN §13): dispatch over plain / history / large cases
+    # ==================================================================================================
+    def run_impl(self, case):
+        kind = case["kind"]
+        if kind == "history":
+            aa = load_autoarray()
+            if case.get("_flush"):
+                self._flush(aa, case)
+            env = _TEnv(self, aa) if case["sub"] == "transformer" else _NEnv(self, aa)
+            return {"steps": [env.step(st["world"], st.get("how") or {}, case.get("pw", 0))
+                              for st in case["steps"]]}
+        if kind == "large":
+            return self._run_plain(self._expand_large(case), raw=True)
+        return self._run_plain(case)
+
+    def model_requests(self, case, impl_obs):
+        kind = case["kind"]
+        if kind == "large":
+            return []          # judged by the vectorised oracle alone (the driver is O(n^2) on lists)
+        if kind == "history":
+            out = []
+            for st in case["steps"]:
+                out += self._requests_plain(st["world"], None)
+            return out
+        return self._requests_plain(case, impl_obs)
+
+    def model_obs(self, case, responses):
+        if case["kind"] == "history":
+            per = 2 if case["sub"] == "transformer" else 1
+            return {"steps": [self._model_obs_plain(st["world"], responses[i * per:(i + 1) * per])
+                              for i, st in enumerate(case["steps"])]}
+        return self._model_obs_plain(case, responses)
+
+    def oracle(self, case, obs):
+        kind = case["kind"]
+        if kind == "large":
+            return self._oracle_plain(self._expand_large(case), obs, large=True)
+        if kind == "history":
+            if not isinstance(obs, dict) or "steps" not in obs:
+                return False, f"history did not run: {str(obs)[:300]}"
+            for i, (st, o) in enumerate(zip(case["steps"], obs["steps"])):
+                ok, d = self._oracle_plain(st["world"], o)
+                if not ok:
+                    return False, (f"history step {i} (how={json.dumps(st.get('how') or {}, sort_keys=True)}) on "
+                                   f"reused objects differs from a freshly built object in the same state: {d}")
+            return True, ""
+        return self._oracle_plain(case, obs)
+
+    def nontrivial(self, case, obs):
+        if case["kind"] == "history":
+            return self._nontrivial_plain(case["steps"][0]["world"], None)
+        if case["kind"] == "large":
+            return case["n"] >= 2 and case["k"] >= 2
+        return self._nontrivial_plain(case, obs)
+
+    def theorems_for(self, case):
+        if case["kind"] == "history":
+            return self._theorems_plain(case["steps"][0]["world"])
+        if case["kind"] == "large":
+            return self._theorems_plain({"kind": case["sub"]})
+        return self._theorems_plain(case)
+
+    def sample_view(self, case):
+        return {k: v for k, v in case.items() if not k.startswith("_")}
+
+    def shrink(self, case):
+        kind = case["kind"]
+        if kind == "history":
+            yield from self._shrink_history(case)
+        elif kind == "large":
+            yield from self._shrink_large(case)
+        else:
+            yield from self._shrink_plain(case)
+
+    # ------------------------------------------------------------------ histories: generation
+    T_FAULTS = ("short_vis", "long_image", "tall_M", "bad_ctor")
+    N_FAULTS = ("tall_M", "short_data")
+    V_OPS = ("mul2", "mulhalf", "neg", "div2", "muli", "add", "sub", "rsub", "add_nd", "sub_zero", "copy", "dcopy",
+             "mcopy", "slice", "plus0", "astype")
+    I_OPS = ("mul2", "mulhalf", "neg", "div2", "add", "sub", "rsub", "add_nd", "add_zero", "copy", "dcopy", "mcopy",
+             "plus0", "slim", "native_slim")
+
+    def _how_common(self, rng, reads, faults, first=False):
+        how = {}
+        if rng.random() < 0.5:
+            o = list(reads)
+            rng.shuffle(o)
+            how["order"] = o
+        if rng.random() < 0.3:
+            how["decoy"] = "deep" if rng.random() < 0.5 else True
+        if not first and rng.random() < 0.2:
+            how["fault"] = rng.choice(faults)
+        return how
+
+    def _derived_vals(self, rng, op, vals, cx):
+        """exact values after the library's arithmetic `op` on `vals` (Fractions; pairs when cx) + operand"""
+        def rnd():
+            return [gen.dyadic(rng, -4, 4, 3), gen.dyadic(rng, -4, 4, 3)] if cx else gen.dyadic(rng, -4, 4, 3)
+
+        def mapv(f):
+            return [[f(a), f(b)] for a, b in vals] if cx else [f(a) for a in vals]
+
+        opnd = None
+        if op == "mul2":
+            new = mapv(lambda a: 2 * a)
+        elif op in ("mulhalf", "div2"):
+            new = mapv(lambda a: a / 2)
+        elif op == "neg":
+            new = mapv(lambda a: -a)
+        elif op == "muli":
+            new = [[-b, a] for a, b in vals]
+        elif op in ("add", "add_nd", "sub", "rsub"):
+            opnd = [rnd() for _ in vals]
+            sg = {"add": (1, 1), "add_nd": (1, 1), "sub": (1, -1), "rsub": (-1, 1)}[op]
+            if cx:
+                new = [[sg[0] * a + sg[1] * c, sg[0] * b + sg[1] * d] for (a, b), (c, d) in zip(vals, opnd)]
+            else:
+                new = [sg[0] * a + sg[1] * c for a, c in zip(vals, opnd)]
+        else:   # identity derivations: copy, slice, x - (library zeros), x + 0.0 ...
+            new = [list(v) for v in vals] if cx else list(vals)
+        return new, opnd
+
+    def _fr(self, vals, cx):
+        return [[Fraction(a), Fraction(b)] for a, b in vals] if cx else [Fraction(a) for a in vals]
+
+    def _qv(self, vals, cx):
+        return [qlist(p) for p in vals] if cx else qlist(vals)
+
+    def _move_structure(self, rng, world, how, role, cx, ops, positive=False):
+        """change the values of one structure (vis / image / data / noise) of `world` in place of the dict, and say
+        in `how` by which route the LIVE object gets there"""
+        vals = self._fr(world[role], cx)
+        n = len(vals)
+        if n == 0:
+            return "same"
+
+        def rnd():
+            if positive:
+                return [gen.pos_dyadic(rng, 1, 4, 2), gen.pos_dyadic(rng, 1, 4, 2)]
+            return [gen.dyadic(rng, -4, 4, 3), gen.dyadic(rng, -4, 4, 3)] if cx else gen.dyadic(rng, -4, 4, 3)
+
+        route = rng.choice(["setitem", "setitem", "arith", "arith", "twin", "fresh"] if ops else
+                           ["setitem", "setitem", "twin", "fresh"])
+        if route == "setitem":
+            key = rng.choice(["int", "int", "slice", "bool"])
+            if key == "int":
+                for i in rng.sample(range(n), min(n, rng.randint(1, 2))):
+                    vals[i] = rnd() if rng.random() < 0.7 else ([Fraction(0), Fraction(0)] if cx and not positive
+                                                               else (Fraction(0) if not positive else rnd()))
+            elif key == "slice":
+                a = rng.randrange(n)
+                b = rng.randint(a + 1, n)
+                for i in range(a, b):
+                    vals[i] = rnd()
+            else:
+                v = rnd()
+                for i in rng.sample(range(n), rng.randint(1, n)):
+                    vals[i] = list(v) if cx else v
+            how[role] = "setitem"
+            how[role + "_key"] = key
+        elif route == "arith":
+            op = rng.choice(ops)
+            vals, opnd = self._derived_vals(rng, op, vals, cx)
+            how[role] = "arith:" + op
+            if opnd is not None:
+                how[role + "_operand"] = self._qv(opnd, cx)
+            route = "arith_" + op
+        elif route == "twin":     # a NEW object whose values differ by ~1e-6 relative
+            vals = [[a * TWIN, b * TWIN] for a, b in vals] if cx else [a * TWIN for a in vals]
+            how[role] = "new"
+        else:
+            vals = [rnd() for _ in range(n)]
+            how[role] = "new"
+        world[role] = self._qv(vals, cx)
+        return route
+
+    def _move_mask(self, world, rng, rows):
+        """flip one pixel of the mask (>= 1 unmasked pixel is kept); `rows`: list of (container, key, new_row_fn)
+        whose per-pixel rows follow the slim order"""
+        mj = world["mask"]
+        bits = mj["bits"]
+        un = [i for i, b in enumerate(bits) if b == "0"]
+        cand = [i for i in range(len(bits)) if not (bits[i] == "0" and len(un) == 1)]
+        if not cand:
+            return False
+        masked = [i for i, b in enumerate(bits) if b == "1"]
+        if un and masked and rng.random() < 0.4:
+            # move a pixel: one unmasked -> masked and one masked -> unmasked (same counts, same array shapes)
+            flips = [rng.choice(masked), rng.choice(un)]
+        else:
+            flips = [rng.choice(cand)]
+        for i in flips:
+            bits = world["mask"]["bits"]
+            un = [j for j, b in enumerate(bits) if b == "0"]
+            if bits[i] == "0":
+                pos = un.index(i)
+                for cont, key, _ in rows:
+                    cont[key] = cont[key][:pos] + cont[key][pos + 1:]
+                nb = "1"
+            else:
+                pos = sum(1 for j in un if j < i)
+                for cont, key, mk in rows:
+                    cont[key] = cont[key][:pos] + [mk()] + cont[key][pos:]
+                nb = "0"
+            world["mask"] = {**world["mask"], "bits": bits[:i] + nb + bits[i + 1:]}
+        return True
+
+    def _move_geometry(self, rng, world):
+        mv = rng.choice(["uv_twin", "uv_twin_one", "scale_twin", "origin_twin"])
+        if mv == "uv_twin" and world["uv"]:
+            world["uv"] = [qlist([Fraction(a) * TWIN, Fraction(b) * TWIN]) for a, b in world["uv"]]
+        elif mv == "uv_twin_one" and world["uv"]:
+            i = rng.randrange(len(world["uv"]))
+            a, b = world["uv"][i]
+            world["uv"] = world["uv"][:i] + [qlist([Fraction(a) * TWIN, Fraction(b) + Fraction(1, 4)])] + \
+                world["uv"][i + 1:]
+        elif mv == "scale_twin":
+            i = rng.randrange(2)
+            ps = [Fraction(v) for v in world["pixel_scales"]]
+            ps[i] = ps[i] * TWIN
+            world["pixel_scales"] = qlist(ps)
+        else:
+            mv = "origin_twin"
+            i = rng.randrange(2)
+            o = [Fraction(v) for v in world["origin"]]
+            o[i] = o[i] + Fraction(1, 1 << 20)
+            world["origin"] = qlist(o)
+        return mv
+
+    def _small_mask(self, rng, hi=4):
+        h, w = rng.randint(1, hi), rng.randint(1, hi)
+        m, _ = gen.random_mask(rng, h, w)
+        if all(b for r in m for b in r):
+            m[rng.randrange(h)][rng.randrange(w)] = False
+        return m
+
+    def _history_transformer(self, rng):
+        import copy as _copy
+
+        base = self._transformer_case(rng, self._small_mask(rng), "h", k=rng.randint(1, 4), c=rng.randint(1, 2),
+                                      ints=False)
+        base["feed"].update(image=rng.choice(["float", "float_list"]), M="float", uv_dtype="float")
+        world = {k: base[k] for k in ("kind", "mask", "pixel_scales", "origin", "uv", "image", "vis", "M", "n_cols",
+                                      "feed")}
+        how0 = self._how_common(rng, self.READS_T, self.T_FAULTS, first=True)
+        if rng.random() < 0.5:
+            how0["preload_order"] = [False, True]
+        if rng.random() < 0.3:
+            how0["share_uv"] = True
+        if rng.random() < 0.3:
+            how0["vis_build"] = rng.choice(["zeros_set", "ones_set", "full_set"])
+        steps = [{"world": world, "how": how0}]
+        names = []
+        for _ in range(rng.randint(1, 3)):
+            w = _copy.deepcopy(steps[-1]["world"])
+            how = self._how_common(rng, self.READS_T, self.T_FAULTS)
+            for key in ("preload_order", "share_uv", "vis_build"):
+                if key in how0:
+                    how[key] = how0[key]
+            if rng.random() < 0.1:
+                how["t"] = rng.choice(["copy", "deepcopy", "new"])
+            mv = rng.choice(["vis", "vis", "vis", "image", "image", "M", "M_twin", "geometry", "mask", "same", "back",
+                             "drop"])
+            if mv == "vis":
+                mv = "vis_" + self._move_structure(rng, w, how, "vis", True, self.V_OPS)
+            elif mv == "image":
+                mv = "image_" + self._move_structure(rng, w, how, "image", False, self.I_OPS)
+            elif mv == "M":
+                M = [list(r) for r in w["M"]]
+                if M and M[0]:
+                    for _k in range(rng.randint(1, 2)):
+                        i, j = rng.randrange(len(M)), rng.randrange(len(M[0]))
+                        M[i][j] = q(rng.choice([Fraction(0), -gen.pos_dyadic(rng, 1, 3, 2), gen.pos_dyadic(rng, 1, 3, 2)]))
+                w["M"] = M
+                mv = "M_inplace"
+            elif mv == "M_twin":
+                w["M"] = [[q(Fraction(v) * TWIN) for v in r] for r in w["M"]]
+                how["M"] = "new"
+            elif mv == "geometry":
+                mv = self._move_geometry(rng, w)
+            elif mv == "mask":
+                c = w["n_cols"]
+                ok = self._move_mask(w, rng, [(w, "image", lambda: q(gen.dyadic(rng, -4, 4, 3))),
+                                              (w, "M", lambda: qlist(self._matrix(rng, 1, c)[0]))])
+                mv = "mask_setitem" if ok else "same"
+            elif mv == "drop":
+                if len(w["uv"]) >= 2:   # the first / last baseline is dropped: visibilities derived by slicing
+                    side = rng.choice(["tail", "head"])
+                    sl = slice(1, None) if side == "tail" else slice(None, -1)
+                    w["uv"], w["vis"] = w["uv"][sl], w["vis"][sl]
+                    how["vis"] = "arith:" + side
+                    mv = "drop_" + side
+                else:
+                    mv = "same"
+            elif mv == "back":
+                w = _copy.deepcopy(steps[0]["world"])
+            if mv == "same" and not (how.get("fault") or how.get("decoy")):
+                how["fault"] = rng.choice(self.T_FAULTS)
+            names.append(mv)
+            steps.append({"world": w, "how": how})
+        pw = 30 if rng.random() < 0.2 else 0
+        return {"tag": "history_t_" + names[0] + ("_tiny" if pw else ""), "kind": "history", "sub": "transformer",
+                "pw": pw, "moves": names, "steps": steps}
+
+    def _history_normal(self, rng):
+        import copy as _copy
+
+        base = self._normal_case(rng, self._small_mask(rng, 3), "h")
+        base["feed"].update(M="float")
+        world = {k: base[k] for k in ("kind", "mask", "pixel_scales", "origin", "uv", "data", "noise", "diag_value",
+                                      "default_settings", "via_factory", "preload", "objs", "feed")}
+        steps = [{"world": world, "how": self._how_common(rng, self.READS_N, self.N_FAULTS, first=True)}]
+        names = []
+        for _ in range(rng.randint(1, 3)):
+            w = _copy.deepcopy(steps[-1]["world"])
+            how = self._how_common(rng, self.READS_N, self.N_FAULTS)
+            mv = rng.choice(["data", "data", "noise", "M", "M_twin", "diag", "geometry", "mask", "objs", "preload",
+                             "same", "back", "drop"])
+            if mv == "data":
+                mv = "data_" + self._move_structure(rng, w, how, "data", True, self.V_OPS)
+            elif mv == "noise":
+                mv = "noise_" + self._move_structure(rng, w, how, "noise", True, (), positive=True)
+            elif mv == "M":
+                o = rng.choice(w["objs"])
+                if o["M"] and o["M"][0]:
+                    i, j = rng.randrange(len(o["M"])), rng.randrange(o["n_cols"])
+                    o["M"][i][j] = q(rng.choice([Fraction(0), -gen.pos_dyadic(rng, 1, 3, 2),
+                                                 gen.pos_dyadic(rng, 1, 3, 2)]))
+                mv = "M_inplace"
+            elif mv == "M_twin":
+                for o in w["objs"]:
+                    o["M"] = [[q(Fraction(v) * TWIN) for v in r] for r in o["M"]]
+                how["M"] = "new"
+            elif mv == "diag":
+                w["default_settings"] = False
+                d = Fraction(w["diag_value"])
+                w["diag_value"] = q(d * TWIN if d != 0 and rng.random() < 0.6 else
+                                    rng.choice([Fraction(1, 1024), Fraction(1, 2), Fraction(3), Fraction(0)]))
+                mv = "diag_twin"
+            elif mv == "geometry":
+                mv = self._move_geometry(rng, w)
+            elif mv == "mask":
+                rows = [(o, "M", (lambda o=o: qlist(self._matrix(rng, 1, o["n_cols"])[0]))) for o in w["objs"]]
+                mv = "mask_setitem" if self._move_mask(w, rng, rows) else "same"
+            elif mv == "objs":
+                n = w["mask"]["bits"].count("0")
+                if len(w["objs"]) > 1 and rng.random() < 0.5:
+                    w["objs"].pop(rng.randrange(len(w["objs"])))
+                else:
+                    c = rng.randint(1, 2)
+                    w["objs"].insert(rng.randint(0, len(w["objs"])),
+                                     {"M": qmat(self._matrix(rng, n, c)), "n_cols": c, "has_reg": rng.random() < 0.5,
+                                      "cls": rng.choice(["mapper", "linear"])})
+            elif mv == "preload":
+                w["preload"] = not w["preload"]
+            elif mv == "drop":
+                if len(w["uv"]) >= 2:
+                    side = rng.choice(["tail", "head"])
+                    sl = slice(1, None) if side == "tail" else slice(None, -1)
+                    w["uv"], w["data"], w["noise"] = w["uv"][sl], w["data"][sl], w["noise"][sl]
+                    how["data"] = "arith:" + side
+                    how["noise"] = rng.choice(["arith:" + side, "new"])
+                    mv = "drop_" + side
+                else:
+                    mv = "same"
+            elif mv == "back":
+                w = _copy.deepcopy(steps[0]["world"])
+            if mv == "same" and not (how.get("fault") or how.get("decoy")):
+                how["fault"] = rng.choice(self.N_FAULTS)
+            names.append(mv)
+            steps.append({"world": w, "how": how})
+        return {"tag": "history_n_" + names[0], "kind": "history", "sub": "normal_eq", "pw": 0, "moves": names,
+                "steps": steps}
+
+    def _flush(self, aa, case):
+        """before a SHRUNK history is re-run in this (long-lived) process: push a far-away world of the same
+        shapes through fresh objects, so that a process-wide single-slot memo holds nothing close to step 0 and the
+        shrunk history fails only if it fails by itself — as it will have to in the fresh process of a replay."""
+        import copy as _copy
+
+        w = _copy.deepcopy(case["steps"][0]["world"])
+        bump = lambda v, d=1: q(Fraction(v) + d)
+        w["uv"] = [qlist([Fraction(a) * 3 + 1, Fraction(b) * 3 - 1]) for a, b in w["uv"]]
+        try:
+            if case["sub"] == "transformer":
+                w["vis"] = [[bump(a), bump(b, -1)] for a, b in w["vis"]]
+                w["image"] = [bump(v) for v in w["image"]]
+                w["M"] = [[bump(v) for v in r] for r in w["M"]]
+                _TEnv(self, aa).step(w, {}, case.get("pw", 0))
+            else:
+                w["data"] = [[bump(a), bump(b, -1)] for a, b in w["data"]]
+                w["noise"] = [[bump(a), bump(b)] for a, b in w["noise"]]
+                for o in w["objs"]:
+                    o["M"] = [[bump(v) for v in r] for r in o["M"]]
+                _NEnv(self, aa).step(w, {}, 0)
+        except Exception:
+            pass
+
+    def _shrink_history(self, case):
+        for c in self._shrink_history0(case):
+            c["_flush"] = True
+            yield c
+
+    def _shrink_history0(self, case):
+        steps = case["steps"]
+
+        def arith(st):
+            return any(isinstance(v, str) and v.startswith("arith:") for v in (st.get("how") or {}).values())
+
+        if len(steps) > 1:
+            yield {**case, "steps": steps[:-1]}
+        for j in range(len(steps) - 1):
+            if not arith(steps[j + 1]) and len(steps) > 1:
+                yield {**case, "steps": steps[:j] + steps[j + 1:]}
+        if case.get("pw"):
+            yield {**case, "pw": 0}
+        for j, st in enumerate(steps):
+            how = st.get("how") or {}
+            for key in ("fault", "decoy", "order", "preload_order", "share_uv", "vis_build", "t"):
+                if key in how:
+                    h2 = {k: v for k, v in how.items() if k != key}
+                    yield {**case, "steps": steps[:j] + [{**st, "how": h2}] + steps[j + 1:]}
+
+    # ------------------------------------------------------------------ large (constant-directed) cases
+    LARGE_BUDGET_S = 30.0      # estimated pure-Python time of all large cases of one run
+    LARGE_CASE_CAP_S = 6.0
+    LARGE_DIMS = ("baselines", "unmasked", "frame", "columns", "table", "matrix_entries", "transformed_entries",
+                  "util_points", "util_baselines", "neq_baselines", "neq_unmasked", "neq_columns", "neq_entries")
+
+    @staticmethod
+    def _large_cost(spec):
+        n, k, c, hw = spec["n"], spec["k"], spec["c"], spec["h"] * spec["w"]
+        if spec["sub"] == "normal_eq":
+            return 5.5e-6 * n * k * (2 + 1.4 * c) + 1.5e-5 * (k * c + n * c) + 2e-6 * c * c + 3e-6 * hw
+        return 5.5e-6 * n * k * (6 + 1.4 * c) + 1.5e-5 * (k * c + n * c + k + n) + 3e-6 * hw
+
+    @staticmethod
+    def _frame_for(t, square_ok=False):
+        """non-square (h, w) with h*w == t: the most balanced factorisation that is not a square"""
+        best = (1, t)
+        d = 1
+        while d * d <= t:
+            if t % d == 0 and (square_ok or d != t // d):
+                best = (d, t // d)
+            d += 1
+        return best
+
+    def _large_spec(self, dim, t, hint, rng):
+        small = rng.choice([(2, 3), (3, 2), (1, 4), (3, 3), (2, 2), (4, 1)])
+        sub, (h, w), n, k, c, cols = "transformer", small, None, 3, 1, None
+        if dim == "baselines":
+            n, k, c = max(2, h * w - rng.randint(0, 1)), t, 2
+        elif dim == "unmasked":
+            w = int((t * 1.2) ** 0.5) + 2
+            h = -(-(t + 1 + t // 16) // w)
+            if h == w:
+                w += 1
+            n = t
+        elif dim == "frame":
+            h, w = self._frame_for(t)
+            if rng.random() < 0.5:
+                h, w = w, h
+            n, c = min(t, 6), 2
+        elif dim == "columns":
+            n, k, c = max(2, h * w - 1), 2, t
+        elif dim == "table":
+            d = max([x for x in range(1, 13) if t % x == 0])
+            n, k = d, t // d
+            h, w = (1, d + 1) if d < 4 else (2, (d + 2) // 2)
+        elif dim == "matrix_entries":        # n * c == t
+            d = max([x for x in range(1, 13) if t % x == 0])
+            n, k, c = d, 2, t // d
+            h, w = (1, d + 1) if d < 4 else (2, (d + 2) // 2)
+        elif dim == "transformed_entries":   # k * c == t
+            d = max([x for x in range(1, 13) if t % x == 0])
+            n, k, c = max(2, h * w - 1), d, t // d
+        elif dim == "neq_entries":           # rows * columns of the operated mapping matrix == t
+            d = max([x for x in range(1, 13) if t % x == 0])
+            sub, n, k, cols = "normal_eq", max(2, h * w - 1), t // d, ([d] if d < 3 else [d - 2, 2])
+        elif dim == "util_points":
+            sub, n, k = "util", t, 2
+        elif dim == "util_baselines":
+            sub, n, k = "util", 3, t
+        elif dim == "neq_baselines":
+            sub, n, k, cols = "normal_eq", max(2, h * w - 1), t, [1, 2]
+        elif dim == "neq_unmasked":
+            sub, n, k, cols = "normal_eq", t, 2, [1, 1]
+            w = int((t * 1.2) ** 0.5) + 2
+            h = -(-(t + 1) // w)
+            if h == w:
+                w += 1
+        elif dim == "neq_columns":
+            sub, n, k = "normal_eq", max(2, h * w - 1), 3
+            cols = [t] if t < 3 else [t // 2, 1, t - t // 2 - 1]
+        if cols is not None:
+            cols = [x for x in cols if x > 0]
+            c = sum(cols)
+        n = min(n, h * w)
+        spec = {"tag": "large_" + dim, "kind": "large", "sub": sub, "dim": dim, "hint": hint, "h": h, "w": w,
+                "n": n, "k": k, "c": c, "seed": rng.randrange(1 << 31)}
+        if cols is not None:
+            spec["cols"] = cols
+        return spec
+
+    def generate_large(self, hints, rng):
+        hints = sorted({int(x) for x in hints if 2 <= int(x)})
+        if not hints:
+            return
+        budget = 0.0
+        for idx, hint in enumerate(hints):
+            budget += self.LARGE_BUDGET_S / len(hints)        # what a smaller constant did not use rolls over
+            # sizes above the constant first, every size dimension in turn (so that no dimension is starved when
+            # the budget runs out for a big constant)
+            for t in (hint + 1, hint + hint // 3 + 1, hint - 1, hint, 2 * hint + 1):
+                for dim in self.LARGE_DIMS:
+                    spec = self._large_spec(dim, t, hint, rng)
+                    cost = self._large_cost(spec)
+                    if cost > self.LARGE_CASE_CAP_S:          # shrink the dimensions that are not the target
+                        if dim in ("unmasked", "neq_unmasked"):
+                            spec["k"] = 1
+                        elif dim in ("baselines", "util_baselines"):
+                            spec.update(n=min(spec["n"], 2), c=1)
+                        elif dim == "columns":
+                            spec.update(n=1, k=1, h=1, w=2)
+                        cost = self._large_cost(spec)
+                    if cost > self.LARGE_CASE_CAP_S or cost > budget:
+                        continue
+                    budget -= cost
+                    yield spec
+
+    _large_cache = None
+
+    def _expand_large(self, spec):
+        """the ordinary (fully written-out) case of a large spec: a deterministic function of the spec, so the
+        replay file stays small"""
+        key = json.dumps({k: v for k, v in spec.items() if not k.startswith("_")}, sort_keys=True)
+        if self._large_cache and self._large_cache[0] == key:
+            return self._large_cache[1]
+        r = random.Random(spec["seed"])
+        sub, h, w, n, k, c = spec["sub"], spec["h"], spec["w"], spec["n"], spec["k"], spec["c"]
+        out = {"tag": spec["tag"], "kind": sub}
+        if sub == "util":
+            grid = [[Fraction(r.randint(-400, 400), 1 << 24), Fraction(r.randint(-400, 400), 1 << 24)]
+                    for _ in range(n)]
+            out["grid"] = [qlist(p) for p in grid]
+            B = 200000
+        else:
+            cells = h * w
+            n = min(n, cells)
+            pos = {0, cells - 1} if n >= 2 else ({cells - 1} if n == 1 else set())
+            if n > len(pos):
+                rest = [i for i in r.sample(range(cells), min(cells, n + 2)) if i not in pos]
+                pos |= set(rest[:n - len(pos)])
+            bits = ["1"] * cells
+            for i in pos:
+                bits[i] = "0"
+            sy, sx = gen.scales_pair(r)
+            if sy == sx:
+                sx = sy * Fraction(3, 2)
+            oy, ox = gen.origin_pair(r)
+            out.update(mask={"h": h, "w": w, "bits": "".join(bits)}, pixel_scales=[q(sy), q(sx)],
+                       origin=[q(oy), q(ox)])
+            ext = max(abs(float(oy)) + h / 2.0 * float(sy), abs(float(ox)) + w / 2.0 * float(sx)) * ARCSEC
+            B = int(min(200000, max(4, 50.0 / ext)))       # keeps |phase| below ~1e3 rad (see `assumptions`)
+        uv = [[Fraction(r.randint(-B, B)), Fraction(r.randint(-B, B))] for _ in range(k)]
+        if k >= 2:
+            uv[r.randrange(k)] = [Fraction(0), Fraction(0)]
+        if k >= 3:
+            i, j = r.sample(range(k), 2)
+            uv[j] = list(uv[i])
+        if k >= 1 and B > 100:
+            i = r.randrange(k)
+            uv[i] = [uv[i][0] + Fraction(1, 2), uv[i][1] - Fraction(3, 4)]
+        out["uv"] = [qlist(p) for p in uv]
+        if sub == "normal_eq":
+            objs, first = [], True
+            for cj in spec.get("cols") or [c]:
+                objs.append({"M": qmat(self._matrix(r, n, cj)), "n_cols": cj, "has_reg": not first and r.random() < 0.5,
+                             "cls": r.choice(["mapper", "linear"])})
+                first = False
+            out.update(
+                data=[qlist([gen.dyadic(r, -4, 4, 3), gen.dyadic(r, -4, 4, 3)]) for _ in range(k)],
+                noise=[qlist([gen.pos_dyadic(r, 1, 4, 2), gen.pos_dyadic(r, 1, 4, 2)]) for _ in range(k)],
+                diag_value=q(Fraction(1, 2)), default_settings=False, via_factory=False, preload=r.random() < 0.5,
+                objs=objs, feed={"uv_dtype": "float", "M": "float", "vis": "complex", "scribble_uv": False})
+        else:
+            out.update(
+                image=qlist([self._val(r, False) for _ in range(n)]),
+                vis=[qlist([self._val(r, False), self._val(r, False)]) for _ in range(k)],
+                M=qmat(self._matrix(r, n, c)), n_cols=c,
+                feed={"uv_dtype": "float", "image": "float", "M": "float", "vis": "complex",
+                      "preload_kw": "explicit", "scribble_uv": False})
+        C13._large_cache = (key, out)
+        return out
+
+    def _shrink_large(self, case):
+        def steps(v, lo):
+            out, d = [], v
+            for x in (lo, lo + 1, v // 2):
+                if lo <= x < v:
+                    out.append(x)
+            d = v // 4
+            while d >= 1:
+                if v - d >= lo:
+                    out.append(v - d)
+                d //= 2
+            return sorted(set(out))
+
+        for key, lo in (("n", 1), ("k", 1), ("c", 1)):
+            if key == "c" and case.get("cols"):
+                continue
+            for x in steps(case[key], lo):
+                yield {**case, key: x}
+        if case.get("cols"):
+            cols = case["cols"]
+            for j, cj in enumerate(cols):
+                for x in steps(cj, 1):
+                    c2 = cols[:j] + [x] + cols[j + 1:]
+                    yield {**case, "cols": c2, "c": sum(c2)}
+        if case["sub"] != "util":
+            cells = case["h"] * case["w"]
+            for t in steps(cells, max(1, case["n"])):
+                h, w = self._frame_for(t, square_ok=True)
+                yield {**case, "h": h, "w": w}
 
 
 CHECK = C13()
